@@ -140,6 +140,9 @@ def ctx_test(ctx, interp, cond):
     return interp.test(cond)
 
 
+# checks whose proof units establish the callee contracts applied here (re-verified by this check, see main.dependency_units)
+DEPENDENCIES = ['C04', 'C05']
+
 META = {
     "level": "proof",
     "bounds": {"tc": "0..65535 symbolic; rejected values: any int outside, None, str", "destinations": "short / group / "
